@@ -32,7 +32,40 @@ const INTERNAL_ERROR: u32 = 9;
 enum Cmd {
     Ret,
     Err(u32),
-    Panic,
+    /// panic, with the kind of payload the unwinding carries (see `panic_with`)
+    Panic(u8),
+}
+
+const PANIC_KINDS: u8 = 7;
+
+/// Panic the way real handlers do: the payload is a `&'static str` only for a literal `panic!`.
+fn panic_with(kind: u8, key: u64) -> ! {
+    use std::hint::black_box;
+    match kind {
+        0 => panic!("gate says panic"),                                   // &'static str
+        1 => panic!("gate says panic for request {}", black_box(key)),     // String
+        2 => {
+            let v: Option<u8> = black_box(None);
+            let _ = v.unwrap();                                            // String (core message)
+            unreachable!()
+        }
+        3 => {
+            let r: Result<(), &str> = black_box(Err("e"));
+            r.expect("x");                                                 // String
+            unreachable!()
+        }
+        4 => {
+            let v: Vec<u8> = black_box(vec![1, 2, 3]);
+            let i = black_box(key as usize % 4 + 3);
+            let _ = black_box(v[i]);                                       // String (index out of bounds)
+            unreachable!()
+        }
+        5 => std::panic::panic_any(17u32),                                 // neither &str nor String
+        _ => {
+            assert_eq!(black_box(1), black_box(2));                        // String
+            unreachable!()
+        }
+    }
 }
 
 #[derive(Debug)]
@@ -82,7 +115,7 @@ fn hold(sh: &Arc<Shared>, key: u64) -> Result<Value, (ErrorCode, String)> {
     match rx.recv_timeout(Duration::from_secs(120)) {
         Ok(Cmd::Ret) => Ok(json!({ "done": key })),
         Ok(Cmd::Err(c)) => Err((code_of(c), "gate says fail".into())),
-        Ok(Cmd::Panic) => panic!("gate says panic"),
+        Ok(Cmd::Panic(kind)) => panic_with(kind, key),
         Err(_) => Err((ErrorCode::Timeout, "gate never opened".into())),
     }
 }
@@ -183,7 +216,7 @@ fn op_line(idx: &str, op: &Op) -> String {
         Op::Cap { cap, mw, ocap: Some(o) } => format!("cap {} {} {} {}", idx, cap.map(|c| c.to_string()).unwrap_or("-".into()), *mw as u8, o),
         Op::Burst { begin } => format!("burst {} {}", idx, if *begin { "begin" } else { "end" }),
         Op::Arrive { id, blocking, notify, ec } => format!("arrive {} {} {} {} {}", idx, id, if *blocking { "blocking" } else { "inline" }, *notify as u8, ec),
-        Op::Exit { id, cmd } => format!("exit {} {} {}", idx, id, match cmd { Cmd::Ret => "ret".to_string(), Cmd::Err(c) => format!("err {}", c), Cmd::Panic => "panic".to_string() }),
+        Op::Exit { id, cmd } => format!("exit {} {} {}", idx, id, match cmd { Cmd::Ret => "ret".to_string(), Cmd::Err(c) => format!("err {}", c), Cmd::Panic(0) => "panic".to_string(), Cmd::Panic(k) => format!("panic {}", k) }),
     }
 }
 
@@ -196,7 +229,8 @@ fn parse_op(line: &str) -> Option<(String, Op)> {
         ["burst", idx, "end"] => Some((idx.to_string(), Op::Burst { begin: false })),
         ["arrive", idx, id, route, n, ec] => Some((idx.to_string(), Op::Arrive { id: id.parse().ok()?, blocking: *route == "blocking", notify: *n == "1", ec: ec.parse().ok()? })),
         ["exit", idx, id, "ret"] => Some((idx.to_string(), Op::Exit { id: id.parse().ok()?, cmd: Cmd::Ret })),
-        ["exit", idx, id, "panic"] => Some((idx.to_string(), Op::Exit { id: id.parse().ok()?, cmd: Cmd::Panic })),
+        ["exit", idx, id, "panic"] => Some((idx.to_string(), Op::Exit { id: id.parse().ok()?, cmd: Cmd::Panic(0) })),
+        ["exit", idx, id, "panic", k] => Some((idx.to_string(), Op::Exit { id: id.parse().ok()?, cmd: Cmd::Panic(k.parse().ok()?) })),
         ["exit", idx, id, "err", c] => Some((idx.to_string(), Op::Exit { id: id.parse().ok()?, cmd: Cmd::Err(c.parse().ok()?) })),
         _ => None,
     }
@@ -484,14 +518,15 @@ async fn do_exit(c: &mut Conn, idx: &str, id: u64, cmd: Cmd) -> OpResult {
             Seen::Event(_) => {}
             Seen::Frame(f) if f.h.notify == 0 && !notify && resp.is_none() => {
                 if f.h.id != id {
-                    let sig = if cmd == Cmd::Panic { "offreader.panic.id" } else { "offreader.exit.id" };
+                    let sig = if matches!(cmd, Cmd::Panic(_)) { "offreader.panic.id" } else { "offreader.exit.id" };
                     fails.push((sig.to_string(), format!("{idx}: handler {id} ended by {:?}; the response carries id {} (ec {})", cmd, f.h.id, f.h.ec)));
                 }
                 resp = Some(f)
             }
             Seen::Frame(f) => c.stray.push(f),
             Seen::Timeout => {
-                fails.push(("offreader.exit.no_response".to_string(), format!("{idx}: handler {id} was told to {:?}; exited={} response={} within {:?}", cmd, exited, resp.is_some(), WATCHDOG)));
+                let sig = if matches!(cmd, Cmd::Panic(_)) { "offreader.panic.no_response" } else { "offreader.exit.no_response" };
+                fails.push((sig.to_string(), format!("{idx}: handler {id} was told to {:?}; exited={} response={} within {:?}", cmd, exited, resp.is_some(), WATCHDOG)));
                 return OpResult { obs: format!("{idx} timeout ; running {}", c.gauge()), fails, broken: true };
             }
             Seen::Closed(e) => {
@@ -502,9 +537,9 @@ async fn do_exit(c: &mut Conn, idx: &str, id: u64, cmd: Cmd) -> OpResult {
     }
     let what = match &resp {
         Some(f) => {
-            let want = match cmd { Cmd::Ret => 0, Cmd::Err(c) => c, Cmd::Panic => INTERNAL_ERROR };
+            let want = match cmd { Cmd::Ret => 0, Cmd::Err(c) => c, Cmd::Panic(_) => INTERNAL_ERROR };
             if f.h.ec != want {
-                let sig = if cmd == Cmd::Panic { "offreader.panic.code" } else { "offreader.exit.code" };
+                let sig = if matches!(cmd, Cmd::Panic(_)) { "offreader.panic.code" } else { "offreader.exit.code" };
                 fails.push((sig.to_string(), format!("{idx}: handler {id} ended by {:?}; its caller got ec {} (want {})", cmd, f.h.ec, want)));
             }
             if c.answered.insert(id, f.h.ec).is_some() {
@@ -524,7 +559,7 @@ fn pick_cmd(r: &mut Rng) -> Cmd {
     match r.below(6) {
         0 | 1 | 2 => Cmd::Ret,
         3 => Cmd::Err(*r.pick(&[4u32, 5, 7, 8, 9, 4096])),
-        _ => Cmd::Panic,
+        _ => Cmd::Panic(r.below(PANIC_KINDS as u64) as u8),
     }
 }
 
@@ -682,20 +717,29 @@ fn gen_scripts(r: &mut Rng, thorough: bool) -> Vec<Vec<Op>> {
         base += 10_000;
         base
     };
-    let kinds_all = [Cmd::Ret, Cmd::Err(7), Cmd::Panic];
+    let kinds_all = [Cmd::Ret, Cmd::Err(7), Cmd::Panic(0)];
+    let mut pk = 0u8;
+    let mut vary = |k: Cmd| -> Cmd {
+        if let Cmd::Panic(_) = k {
+            pk = (pk + 1) % PANIC_KINDS;
+            Cmd::Panic(pk)
+        } else {
+            k
+        }
+    };
     // all release orders for small caps (thorough: with all exit-kind assignments)
     for cap in 1..=3usize {
         for order in permutations(cap) {
             if thorough {
                 let total = 3usize.pow(cap as u32);
                 for code in 0..total {
-                    let kinds: Vec<Cmd> = (0..cap).map(|i| kinds_all[(code / 3usize.pow(i as u32)) % 3]).collect();
+                    let kinds: Vec<Cmd> = (0..cap).map(|i| vary(kinds_all[(code / 3usize.pow(i as u32)) % 3])).collect();
                     scripts.push(order_script(cap, (code + order[0]) % 2 == 1, nb(), &order, &kinds, r));
                 }
             } else {
-                let kinds: Vec<Cmd> = (0..cap).map(|_| *r.pick(&kinds_all)).collect();
+                let kinds: Vec<Cmd> = (0..cap).map(|_| vary(*r.pick(&kinds_all))).collect();
                 scripts.push(order_script(cap, r.chance(1, 2), nb(), &order, &kinds, r));
-                let kinds: Vec<Cmd> = (0..cap).map(|_| Cmd::Panic).collect();
+                let kinds: Vec<Cmd> = (0..cap).map(|_| vary(Cmd::Panic(0))).collect();
                 scripts.push(order_script(cap, r.chance(1, 2), nb(), &order, &kinds, r));
             }
         }
@@ -837,7 +881,12 @@ async fn run_script(out: &mut Out, servers: &mut HashMap<SrvKey, Srv>, sno: usiz
                         out.count("offreader.inline_while_saturated");
                     }
                 }
-                Op::Exit { cmd, .. } => out.count(&format!("offreader.exit.{}", match cmd { Cmd::Ret => "ret", Cmd::Err(_) => "err", Cmd::Panic => "panic" })),
+                Op::Exit { cmd, .. } => {
+                    out.count(&format!("offreader.exit.{}", match cmd { Cmd::Ret => "ret", Cmd::Err(_) => "err", Cmd::Panic(_) => "panic" }));
+                    if let Cmd::Panic(k) = cmd {
+                        out.count(&format!("offreader.panic_payload.{}", ["static_str", "formatted_string", "none_unwrap", "err_expect", "index_out_of_bounds", "panic_any_u32", "assert_eq"].get(*k as usize).unwrap_or(&"other")));
+                    }
+                }
                 _ => {}
             }
             let nontrivial = matches!(op, Op::Exit { .. }) || kind == "dropped" || (kind == "resp" && w.get(3) == Some(&"8")) || !c.parked.is_empty();
@@ -908,7 +957,7 @@ fn main() {
     let args = Args::parse();
     quiet_panics();
     let mut out = Out::new(&args.out);
-    out.rule = "event scripts on one raw WebSocket connection per script against a real WebSocketServer: caps 1..16 and unlimited, routers with and without middleware, the four `_blocking` registrars (by request id), arrivals up to 4x cap of blocking requests (1 in 5 a notify) interleaved with inline requests (some failing) and exits of random running handlers (return / error code / panic), every release order for caps 1..3 (thorough: with every assignment of exit kinds), pressure scripts (outbound queue of one slot, server on a current-thread runtime, caps 1..3): bursts of cap parked + 3..12 further blocking requests + inline requests with 48 KiB answers written to the socket in one piece and read only afterwards; each script ends by releasing everything, admitting cap-many further requests, one refusal, and releasing again. Distinct by op line; non-trivial = an exit, a saturation reply/drop, or any event while handlers are parked".into();
+    out.rule = "event scripts on one raw WebSocket connection per script against a real WebSocketServer: caps 1..16 and unlimited, routers with and without middleware, the four `_blocking` registrars (by request id), arrivals up to 4x cap of blocking requests (1 in 5 a notify) interleaved with inline requests (some failing) and exits of random running handlers (return / error code / panic with 7 payload kinds: literal &str, formatted String, None.unwrap(), Err.expect(), index out of bounds, panic_any(u32), assert_eq!), every release order for caps 1..3 (thorough: with every assignment of exit kinds), pressure scripts (outbound queue of one slot, server on a current-thread runtime, caps 1..3): bursts of cap parked + 3..12 further blocking requests + inline requests with 48 KiB answers written to the socket in one piece and read only afterwards; each script ends by releasing everything, admitting cap-many further requests, one refusal, and releasing again. Distinct by op line; non-trivial = an exit, a saturation reply/drop, or any event while handlers are parked".into();
     let rt = tokio::runtime::Builder::new_multi_thread().worker_threads(4).max_blocking_threads(256).enable_all().build().unwrap();
     let mut rng = Rng::new(args.seed);
     let scripts: Vec<Vec<(String, Op)>> = match args.replay_ops() {
